@@ -1,7 +1,7 @@
 """C03 - tasks inherit a context snapshot and never observe each other's scopes."""
 import random
 
-from harness.legs import cfg_text, leg_m, leg_mutant, leg_r, leg_t_gen
+from harness.legs import cfg_text, gen_traces, leg_m, leg_mutant, leg_r, leg_t_gen
 from props.scopes_common import TRACE_KW, ScopesDriver, gen_trace
 
 SPEC = "Scopes"
@@ -38,7 +38,7 @@ def run(rep, work, tier, seed):
     # leg T: random programs beyond the exhaustive bound (depth 6, ~28 operations, 4 task(s)) validated by a trace
     # module generated from Scopes.tla
     rnd = random.Random(seed * 13 + 4)
-    traces = [gen_trace(rnd, ntasks=4) for _ in range(150 if tier == "quick" else 2000)]
+    traces = gen_traces(rep, lambda: gen_trace(rnd, ntasks=4), 150 if tier == "quick" else 2000)
     leg_t_gen(rep, work, SPEC, f"trace_{tier}", traces, **TRACE_KW)
     rep.assumptions += [
         "interleavings are explored at gate granularity (between operations of the tasks' programs); handle-level "
